@@ -291,6 +291,15 @@ def run_routers(case, acc):
             out.append({'signature': 'C13|two-routers|main-stream-not-completed%s' % tag, 'detail': {'items': items, 'error': repr(sink.error)}})
         if main_want is None:
             main_want = sink.items
+            counts, model_out = {}, []
+            for x in items:                    # count() behind both routers: one running count per item that passes both stages
+                if x % 10 == 0:
+                    g = x // 100 % 10
+                    counts[g] = counts.get(g, 0) + 1
+                    model_out.append(counts[g])
+            if sink.items != model_out:
+                out.append({'signature': 'C13|two-routers|main-output-' + str(harness.diff_kind(model_out, sink.items)),
+                            'detail': {'items': items, 'expected': model_out, 'observed': sink.items}})
         elif sink.items != main_want:
             out.append({'signature': 'C13|two-routers|main-output-differs%s' % tag, 'detail': {'items': items, 'first': main_want, 'second': sink.items}})
         for k, want in ((0, want1), (1, want2)):
@@ -421,7 +430,7 @@ def run_late(case, acc):
     acc.traces += 1
     acc.count('dead_letter_subscribed_after_the_pipeline')
     out = []
-    want_dead = [x for x in items if x % 10 == 1] + (['source-failure'] if boom else [])
+    want_dead = [x for x in items if x % 10 == 1]
     want_main = []
     for g in (0, 1):
         n_ok = [x for x in items if x // 100 % 10 == g and x % 10 != 1]
@@ -444,6 +453,17 @@ def run_late(case, acc):
         out.append(viol(case, 'late-dead-letter-main-stream-not-completed', {'items': items, 'error': repr(sink.error)}))
     elif sink.items != exp:
         out.append(viol(case, 'late-dead-letter-main-output-' + str(harness.diff_kind(exp, sink.items)), {'items': items, 'expected': exp, 'observed': sink.items}))
+    if boom is not None:
+        # "completes with the stream": when the stream ends with a failure of the source, the dead letter has received the
+        # item-level exceptions in order and is terminated as well - whether it also receives the source's exception (as an
+        # item, as the pinned commit does, or as its own on_error) is not stated
+        got_dead = dead['items'][:-1] if dead['items'][-1:] == ['source-failure'] else dead['items']
+        if got_dead != want_dead:
+            out.append(viol(case, 'late-dead-letter-' + str(harness.diff_kind(want_dead, got_dead)), {'items': items, 'expected': want_dead, 'observed': dead['items']}))
+        if dead['completed'] + (1 if dead['error'] is not None else 0) != 1:
+            out.append(viol(case, 'dead-letter-not-terminated-with-the-failed-stream', {'items': items, 'completed': dead['completed'], 'error': repr(dead['error'])}))
+        acc.outcomes.add(fast_hash(repr((case['op'], flags, sink.items, dead['items']))))
+        return out
     if dead['items'] != want_dead:
         out.append(viol(case, 'late-dead-letter-' + str(harness.diff_kind(want_dead, dead['items'])), {'items': items, 'expected': want_dead, 'observed': dead['items']}))
     if dead['completed'] != 1 or dead['error'] is not None:
